@@ -23,7 +23,7 @@ TEXT_WORDS = ("desc", "summary", "title", "default")
 LOG_FUNCS = {"debug", "info", "warning", "error", "exception", "critical", "warn"}
 
 MODELLED = {1: "enum_value", 2: "meta_key", 3: "disc_prop", 4: "disc_value", 5: "query_key", 6: "header_key", 7: "media_type",
-            8: "default", 9: "alias_doc", 10: "field_comment", 11: "wrapper_doc", 12: "DocumentationWriter", 13: "tag_doc",
+            8: "default", 17: "enum_default", 9: "alias_doc", 10: "field_comment", 11: "wrapper_doc", 12: "DocumentationWriter", 13: "tag_doc",
             14: "block_doc_line", 15: "client_doc_title", 16: "client_doc_description"}
 
 # (file, function, template prefix) -> site number (0 = not free text, with the reason as a comment)
@@ -93,6 +93,15 @@ KNOWN: dict[tuple[str, str, str], int] = {
     ("visit/model/dataclass_generator.py", "generate", "{field_doc} (maps from '{prop_name}')"): 10,   # feeds the field comment (10) and DocumentationWriter (12)
     ("visit/model/dataclass_generator.py", "generate", "Maps from '{prop_name}'"): 10,
     ("visit/model/dataclass_generator.py", "_get_field_default", "'\"' + {escaped_inner_content} + '\"'"): 8,
+    # every use of `.default` (any rendering of a default into code needs a model; branch structure of _get_field_default:
+    #  array -> default_factory, anonymous object -> default_factory, named enum -> 17, str -> 8 for EVERY declared type,
+    #  bool/int/float -> str(value) which is not text)
+    ("visit/model/dataclass_generator.py", "_get_field_default", "default-use: default_str = str(ps.default)"): 17,   # named enum: Name.MEMBER
+    ("visit/model/dataclass_generator.py", "_get_field_default", "default-use: escaped_inner_content = json.dumps(ps.default)[1:-1]"): 8,
+    ("visit/model/dataclass_generator.py", "_get_field_default", "default-use: return str(ps.default)"): 0,   # under isinstance(bool) / isinstance((int, float)): not text
+    ("visit/model/dataclass_generator.py", "generate", "default-use: synthetic_field_schema_for_default = IRSchema("): 0,   # array wrapper: copied, then default_factory=list
+    ("visit/model/dataclass_generator.py", "generate", "default-use: IRSchema("): 0,                          # copied into another IRSchema
+    ("visit/endpoint/processors/parameter_processor.py", "process_parameters", "default-use: param_info = {"): 0,   # carried in param_info, never rendered (signatures always use `= None`)
     ("visit/endpoint/generators/docstring_generator.py", "generate_docstring", "{resp.status_code}: {resp.description.strip() if resp.description else 'HTTP error.'}"): 12,
     ("visit/endpoint/generators/docstring_generator.py", "generate_docstring", "{body_desc} + ' (multipart/form-data)'"): 12,
     ("visit/endpoint/generators/docstring_generator.py", "generate_docstring", "{body_desc} + ' (x-www-form-urlencoded)'"): 12,
@@ -194,6 +203,30 @@ def scan(src_root: Path) -> tuple[list[tuple[str, int, str, str]], list[tuple[st
                                and c.func.attr == "write_line" and len(c.args) == 1 and isinstance(c.args[0], ast.Constant)
                                and c.args[0].value == '"""')
                 regions[fn.name] = [(marks[i], marks[i + 1]) for i in range(0, len(marks) - 1, 2)]
+
+        # ANY use of a schema's `.default` outside a condition is a candidate: the value may be rendered into code
+        for node in ast.walk(mod):
+            if isinstance(node, ast.Attribute) and node.attr == "default" and isinstance(node.ctx, ast.Load):
+                if excluded(node):
+                    continue
+                q: ast.AST = node
+                in_test = False
+                while q in par and not isinstance(par[q], ast.stmt):
+                    pq = par[q]
+                    if isinstance(pq, ast.IfExp) and pq.test is q:
+                        in_test = True
+                    if isinstance(pq, ast.Call) and isinstance(pq.func, ast.Name) and pq.func.id in ("isinstance", "type", "len"):
+                        in_test = True
+                    if isinstance(pq, ast.Compare):
+                        in_test = True
+                    q = pq
+                st = par.get(q)
+                if isinstance(st, (ast.If, ast.While)) and st.test is q:
+                    in_test = True
+                if in_test:
+                    continue
+                whole = st if isinstance(st, (ast.Assign, ast.AnnAssign, ast.AugAssign, ast.Return, ast.Expr)) else q
+                cands.append((rel, node.lineno, func_of(node), "default-use: " + ast.unparse(whole)[:90]))
 
         seen_nodes: set[int] = set()
         for node in ast.walk(mod):
